@@ -86,7 +86,7 @@ func zipuFileTok(f *zipuFile) string {
 	if f.mode == 'r' && zipuGe124(f.content) {
 		g = "1"
 	}
-	return hx(f.path) + ":" + string(f.mode) + ":" + i64toa(f.size) + ":" + hx(string(f.content)) + ":" + g
+	return hx(f.path) + ":" + string(f.mode) + ":" + i64toa(f.size) + ":" + zipuHxC(f.content) + ":" + g
 }
 
 func zipuFilesTok(fs []*zipuFile) string {
@@ -110,7 +110,7 @@ func zipuParseFiles(s string) []*zipuFile {
 		if len(p) != 5 || len(p[1]) != 1 {
 			panic("bad file token " + tok)
 		}
-		out = append(out, &zipuFile{path: unhx(p[0]), mode: p[1][0], size: atoi64(p[2]), content: []byte(unhx(p[3]))})
+		out = append(out, &zipuFile{path: unhx(p[0]), mode: p[1][0], size: atoi64(p[2]), content: zipuUnhxC(p[3])})
 	}
 	return out
 }
@@ -121,6 +121,31 @@ func zipuAsFiles(fs []*zipuFile) []modzip.File {
 		out[i] = f
 	}
 	return out
+}
+
+// zipuHxC / zipuUnhxC: contents in the line protocol: hex, or `z<N>` for N zero bytes (N >= 4096), so that
+// contents of 16 MiB and more stay short on the line.
+func zipuHxC(c []byte) string {
+	if len(c) >= 4096 {
+		zero := true
+		for _, b := range c {
+			if b != 0 {
+				zero = false
+				break
+			}
+		}
+		if zero {
+			return "z" + itoa(len(c))
+		}
+	}
+	return hx(string(c))
+}
+
+func zipuUnhxC(s string) []byte {
+	if strings.HasPrefix(s, "z") {
+		return make([]byte, atoi(s[1:]))
+	}
+	return []byte(unhx(s))
 }
 
 // ---- archive entries
@@ -157,7 +182,7 @@ func zipuEntriesTok(es []zipuEntry) string {
 	}
 	out := make([]string, len(es))
 	for i, e := range es {
-		out[i] = hx(e.name) + ":" + strconv.FormatUint(e.decl, 10) + ":" + hx(string(e.content))
+		out[i] = hx(e.name) + ":" + strconv.FormatUint(e.decl, 10) + ":" + zipuHxC(e.content)
 		if e.mode != 0 {
 			out[i] += ":" + string(e.mode)
 		}
@@ -179,7 +204,7 @@ func zipuParseEntries(s string) []zipuEntry {
 		if err != nil {
 			panic("bad size " + p[1])
 		}
-		e := zipuEntry{name: unhx(p[0]), decl: d, content: []byte(unhx(p[2]))}
+		e := zipuEntry{name: unhx(p[0]), decl: d, content: zipuUnhxC(p[2])}
 		if len(p) == 4 {
 			e.mode = p[3][0]
 		}
@@ -473,7 +498,7 @@ func zipuShowArchive(data []byte) string {
 		if err != nil {
 			return "unreadable-entry"
 		}
-		out[i] = hx(zf.Name) + "=" + hx(string(c))
+		out[i] = hx(zf.Name) + "=" + zipuHxC(c)
 	}
 	return "ok " + strings.Join(out, ",")
 }
@@ -822,6 +847,10 @@ func zipuGenFiles(r *Rand, o zipuGenOpts) []*zipuFile {
 	elem := func() string {
 		for {
 			e := r.Pick(zipuGoodElems)
+			if r.Chance(20) {
+				// a name over the whole alphabet, so that every letter takes part in case-variant pairs
+				e = r.Bytes(1+r.Intn(5), "abcdefghijklmnopqrstuvwxyzABCDEFGHIJKLMNOPQRSTUVWXYZ") + r.Pick([]string{"", ".go", ".txt", "_test.go"})
+			}
 			if !clean && r.Chance(10) {
 				e = r.Pick(zipuBadElems)
 			}
@@ -865,6 +894,25 @@ func zipuGenFiles(r *Rand, o zipuGenOpts) []*zipuFile {
 				continue
 			}
 			add(pre+p, pickMode(pre+p))
+		}
+	}
+	if !clean {
+		// case-variant pairs: flip the case of one letter, drawn uniformly from the letters of an existing path
+		// (a directory element or the file name), appended after or inserted before the original
+		for k := r.Intn(3); k > 0 && len(fs) > 0; k-- {
+			i := r.Intn(len(fs))
+			v := zipuFlipCase(r, fs[i].path)
+			if v == fs[i].path {
+				continue
+			}
+			n := len(fs)
+			add(v, fs[i].mode)
+			if len(fs) == n+1 && r.Bool() {
+				// the variant first, the original second
+				nf := fs[n]
+				copy(fs[i+1:], fs[i:n])
+				fs[i] = nf
+			}
 		}
 	}
 	if r.Chance(60) {
@@ -918,6 +966,40 @@ func zipuGenFiles(r *Rand, o zipuGenOpts) []*zipuFile {
 		}
 	}
 	return fs
+}
+
+// zipuFlipCase flips the case of one ASCII letter of s, every letter position being equally likely.
+func zipuFlipCase(r *Rand, s string) string {
+	var pos []int
+	for i := 0; i < len(s); i++ {
+		if c := s[i] | 0x20; 'a' <= c && c <= 'z' {
+			pos = append(pos, i)
+		}
+	}
+	if len(pos) == 0 {
+		return s
+	}
+	b := []byte(s)
+	b[pos[r.Intn(len(pos))]] ^= 0x20
+	return string(b)
+}
+
+// zipuFoldSweep: for every ASCII letter, pairs of paths that differ only in the case of that letter —
+// as a file name and as a directory name, alone and embedded, with and without a non-ASCII rune
+// elsewhere (strToFold has an ASCII fast path) — and the bytes next to the letter ranges, which must
+// not be identified.  Each item is (first, second).
+func zipuFoldSweep() [][2]string {
+	var out [][2]string
+	for c := byte('a'); c <= 'z'; c++ {
+		l, u := string(c), string(c-0x20)
+		out = append(out, [2]string{l + ".go", u + ".go"}, [2]string{u + ".go", l + ".go"},
+			[2]string{"x" + u + "y", "x" + l + "y"}, [2]string{"pkg/" + l + "eta.go", "pkg/" + u + "eta.go"},
+			[2]string{"pkg/" + u + "eta/a.go", "pkg/" + l + "eta/b.go"}, [2]string{l + l + "/q.go", l + u + "/r.go"},
+			[2]string{"é/" + l + ".go", "é/" + u + ".go"}, [2]string{u + "é", l + "é"}, [2]string{l, u})
+	}
+	out = append(out, [2]string{"@", "`"}, [2]string{"[", "{"}, [2]string{"a@", "a`"}, [2]string{"x[y", "x{y"}, [2]string{"]", "}"},
+		[2]string{"^", "~"}, [2]string{"_", "\x7f"}, [2]string{"@é", "`é"}, [2]string{"[é", "{é"}, [2]string{"A@", "a`"}, [2]string{"Z[", "z{"})
+	return out
 }
 
 var zipuMods = [][2]string{
